@@ -166,18 +166,32 @@ def r2(F, R):
             ok = True
     if not ok:
         ok = _loop_collects_all(F, b, lens)
+    if not ok:
+        # the candidate list comes out of a private helper (`self.candidates(step)`): the helper's returned vector is checked the same way
+        for s, t in lens:
+            l = op_local(t["args"][0])
+            sd = b.single_def(A.canon_place(b, {"l": l, "p": ["*"]})["l"]) if l is not None else None
+            hb = F.callee_body(sd[2], b.crate) if sd and sd[1] == "call" else None
+            if hb is None:
+                continue
+            rets = {op_local(st2["rv"]["op"]) for _, st2 in hb.assigns(lambda st2: st2["pl"]["l"] == 0 and not st2["pl"]["p"] and st2["rv"]["k"] == "use")}
+            ch = A.receiver_chain(hb, {"k": "copy", "pl": {"l": 0, "p": []}})
+            if [callee_path(c).rsplit("::", 1)[-1] for _, c in ch][:3] == ["collect", "filter_map", "iter"]:
+                ok = True
+            elif rets and None not in rets:
+                ok = _loop_collects_all(F, hb, [], counted_locals={A.canon_place(hb, {"l": r_, "p": []})["l"] for r_ in rets})
     R.check(ok, "candidates-are-all-matches", b, "map.iter().filter_map(match).collect()  (or a loop over the whole map pushing every match)",
             "the candidate list is not built from every entry of the selected map (order-dependent or partial)")
     R.floor(2)
 
 
-def _loop_collects_all(F, b, lens):
+def _loop_collects_all(F, b, lens, counted_locals=None):
     """`for entry in map { if let Some(m) = re.captures_read(..) { candidates.push(..) } }`: a loop driven by the map's
     iterator whose only exit is the iterator's end, pushing — guarded by nothing but the match — onto the vector that is
     counted afterwards."""
     nexts = [(s, t) for s, t in b.calls(lambda t: callee_is(t, r"Iterator::next$") and "hash_map::" in (op_fn(t["func"]) or {}).get("self", ""))]
     pushes = [(s, t) for s, t in b.calls(lambda t: callee_is(t, r"Vec::<.*>::push$"))]
-    counted = set()
+    counted = set(counted_locals or ())
     for s, t in lens:
         l = op_local(t["args"][0])
         if l is not None:
@@ -230,7 +244,19 @@ def r3(F, R):
         names = [callee_path(c).rsplit("::", 1)[-1] for _, c in ch]
         # the whole reported element (regex AND location) must be the sort key: `sorted()` directly before `collect()`; a custom comparator
         # (sorted_by / sorted_by_key) is not accepted because entries that compare equal keep HashMap order
-        R.check(names[:2] in (["collect", "sorted"], ["collect", "sorted_unstable"]), "candidates-sorted", s,
+        ok_sorted = names[:2] in (["collect", "sorted"], ["collect", "sorted_unstable"])
+        if not ok_sorted:
+            # explicit spelling: `v.sort()` (the whole element is the key) on the very vector, after the last push, before it is reported
+            vl = op_local(st["rv"]["ops"][0])
+            vl = A.canon_place(b, {"l": vl, "p": []})["l"] if vl is not None else None
+            same = lambda t: op_local(t["args"][0]) is not None and A.canon_place(b, {"l": op_local(t["args"][0]), "p": ["*"]})["l"] == vl or \
+                vl in A.slice_back(b, [t["args"][0]]).locals
+            sorts = [(s2, t2) for s2, t2 in b.calls(lambda t2: callee_is(t2, r"(slice|\[T\]>?)(::<.*>)?::(sort|sort_unstable)$|<impl \[T\]>::(sort|sort_unstable)$")) if same(t2)]
+            muts = [(s2, t2) for s2, t2 in b.calls(lambda t2: callee_is(t2, r"Vec::<.*>::(push|insert|extend|append|swap|reverse|dedup\w*|retain|truncate|pop|remove|swap_remove)$")) if same(t2)]
+            ok_sorted = len(sorts) == 1 and b.dominates(sorts[0][0], s) and not any(b.site_reaches(sorts[0][0], m) and b.site_reaches(m, s) for m, _ in muts)
+            if ok_sorted:
+                names = ["sort()"] + names
+        R.check(ok_sorted, "candidates-sorted", s,
                 f"possible_matches = ….sorted().collect()  ({names[:4]})", f"the ambiguity candidates are not totally ordered (by regex and location) right before being collected ({names[:4]}): "
                 "the reported list depends on HashMap iteration order")
     # HashableRegex: Ord, PartialEq, Hash via as_str
